@@ -31,6 +31,31 @@ impl Service<Request<Bytes>> for Tagged {
     }
 }
 
+/// Wildcard-tail routes are registered the way the property names them: as an RPC service under
+/// `/<service-name>/...` through `add_rpc_service`.
+macro_rules! rpc_service {
+    ($t:ident, $name:literal) => {
+        #[derive(Clone)]
+        struct $t(Tagged);
+        impl anemo::rpc::RpcService for $t {
+            const SERVICE_NAME: &'static str = $name;
+        }
+        impl Service<Request<Bytes>> for $t {
+            type Response = Response<Bytes>;
+            type Error = Infallible;
+            type Future = std::future::Ready<Result<Response<Bytes>, Infallible>>;
+            fn poll_ready(&mut self, cx: &mut Context<'_>) -> Poll<Result<(), Infallible>> {
+                self.0.poll_ready(cx)
+            }
+            fn call(&mut self, req: Request<Bytes>) -> Self::Future {
+                self.0.call(req)
+            }
+        }
+    };
+}
+rpc_service!(RpcSvc, "svc");
+rpc_service!(RpcT, "t");
+
 #[derive(Clone)]
 struct Mark<S> {
     inner: S,
@@ -82,7 +107,7 @@ fn sub(k: u64) -> Router {
             .route("/a", Tagged(103))
             .route_layer(MarkLayer(8))
             .route_layer(MarkLayer(9))
-            .route("/t/*rest", Tagged(102))
+            .add_rpc_service(RpcT(Tagged(102)))
     }
 }
 
@@ -90,6 +115,8 @@ fn build(ops: &[Value]) -> Router {
     let mut r = Router::new();
     for (i, op) in ops.iter().enumerate() {
         r = match op["op"].as_str().unwrap() {
+            "route" if op["wild"] == true && op["prefix"] == "/svc/" => r.add_rpc_service(RpcSvc(Tagged(i as u64 + 1))),
+            "route" if op["wild"] == true && op["prefix"] == "/t/" => r.add_rpc_service(RpcT(Tagged(i as u64 + 1))),
             "route" => r.route(op["pat"].as_str().unwrap(), Tagged(i as u64 + 1)),
             "layer" => r.route_layer(MarkLayer(op["id"].as_u64().unwrap())),
             "merge" => r.merge(sub(op["sub"].as_u64().unwrap())),
